@@ -1099,8 +1099,8 @@ func (s *Stage) putFileAway(file *finalFile) (targetPath string, err error) {
 	// newer version of this name that is being received
 	if cmp, _ := readLocalCompanion(file.path, file.name); cmp == nil || cmp.Hash == file.hash {
 		os.Remove(file.path + compExt)
-		verifhook.Point("stage.d.rmcmp", file.path)
 	}
+	verifhook.Point("stage.d.rmcmp", file.path)
 	return
 }
 
